@@ -76,8 +76,14 @@ class Spec:
         if self.explicit:
             for c in self.explicit(tier, seed):
                 yield c
+        PG = [{"first_page": 1, "page_size": 1}, {"first_page": 1, "page_size": 1, "empty_every": 2}, {"first_page": 0, "page_size": 2, "empty_every": 1},
+              {"first_page": 2, "page_size": 2, "resp_page": 1}]
         for j in range(n.get("enum", 0)):
-            yield {"label": "crash-enum", "prog_seed": base + i, "gen": self.small_gen, "pattern": {"p": "crash_enum"}}
+            c = {"label": "crash-enum", "prog_seed": base + i, "gen": self.small_gen, "pattern": {"p": "crash_enum"}}
+            if j % 3 == 2:  # the histories left by the crashes are delivered in pages (some of them empty but carrying a marker)
+                c["label"] = "crash-enum-paged"
+                c["pages"] = PG[(j // 3) % len(PG)]
+            yield c
             i += 1
         for j in range(n.get("pairs", 0)):
             yield {"label": "crash-pairs", "prog_seed": base + i, "gen": dict(self.small_gen, max_ops=3), "pattern": {"p": "crash_pairs"}}
@@ -87,7 +93,8 @@ class Spec:
             yield {"label": "plain" if j % 3 != 2 else "plain-warm", "prog_seed": base + i, "gen": self.gen, "pattern": {"p": "plain"},
                    "pages": rng.choice([{}, {"first_page": 1, "page_size": 1}, {"first_page": 2, "page_size": 3},
                                         {"first_page": 1, "page_size": 50, "resp_page": 1}, {"first_page": 0, "page_size": 2},
-                                        {"resp_page": 2}]),
+                                        {"resp_page": 2}, {"first_page": 1, "page_size": 1, "empty_every": 2}, {"first_page": 0, "page_size": 2, "empty_every": 1},
+                                        {"resp_page": 1, "empty_every": 2}]),
                    "latency_ms": rng.choice([None, None, (0, 3)]),
                    # every third uninterrupted run is served by ONE warm sandbox: the same process (module state, caches, pools, the
                    # decorated handler object) handles every invocation of the execution, as a reused Lambda environment does
@@ -95,7 +102,7 @@ class Spec:
             i += 1
         for j in range(n.get("rand", 0)):
             yield {"label": "crash-random" if j % 3 != 1 else "crash-random-warm", "prog_seed": base + i, "gen": self.gen, "pattern": {"p": "crash_random", "n": 1 + j % 3},
-                   "opts": {"warm": True} if j % 3 == 1 else {}}
+                   "opts": {"warm": True} if j % 3 == 1 else {}, "pages": PG[j % len(PG)] if j % 4 == 3 else {}}
             i += 1
         for j in range(n.get("async", 0)):
             yield {"label": "async-kill", "prog_seed": base + i, "gen": self.gen, "pattern": {"p": "async_kill"}}
